@@ -1,7 +1,8 @@
 (* C16 — name, path, signature and UTF-8 checks accept exactly the specified
    grammars.  Only theorem statements closed by [exact]; proofs live in
    Proofs/.  See DESIGN.md section 4 (C16). *)
-From DV Require Import Lib.Base Gen.Tables Wire.Names Spec.NamesSpec Proofs.NamesProofs.
+From DV Require Import Lib.Base Gen.Tables Wire.Names Wire.Utf8 Wire.Sig Spec.NamesSpec Spec.Utf8Spec Spec.SigSpec Proofs.NamesProofs Proofs.Utf8Proofs.
+From Coq Require Import ZArith.
 Local Open Scope N_scope.
 
 Theorem C16_interface : forall s, validate_interface s = spec_interface s.
@@ -49,9 +50,31 @@ Theorem C16_bus_namespace : forall s, (match s with 58 :: _ => False | _ => True
 Proof. exact bus_namespace_correct. Qed.
 Print Assumptions C16_bus_namespace.
 
+(* UTF-8: the model of _dbus_string_validate_utf8 (tables generated from the C
+   macros) terminates without fault and accepts exactly Unicode Table 3-7
+   without NUL, for every string of bytes *)
+Theorem C16_utf8 : forall s, all_bytes s = true -> validate_utf8 s = Some (spec_utf8 s).
+Proof. exact utf8_correct. Qed.
+Print Assumptions C16_utf8.
+
+(* Signatures: full statement (model = grammar with the 32/32 nesting limits),
+   NOT met by the faithful model (F11): array nesting is counted only over
+   consecutive 'a' codes.  The automaton/grammar equivalence below that limit
+   is decided by exhaustive small-scope correspondence, not yet by a theorem. *)
+Definition C16_signature_full_statement : Prop := forall s, validate_signature s = spec_signature s.
+
+Definition f11_witness : bytes :=
+  flat_map (fun _ => [97; 40]) (seq 0 32) ++ [97; 105] ++ repeat 41 32.   (* "a(" x32 "ai" ")" x32 : 33 nested arrays *)
+Theorem C16_signature_refuted : exists s, validate_signature s <> spec_signature s.
+Proof. exists f11_witness. vm_compute. discriminate. Qed.
+Print Assumptions C16_signature_refuted.
+
 (* non-vacuity: concrete non-trivial strings on both sides of each predicate *)
 Example ex_iface_ok : validate_interface [111;114;103;46;102;95;48] = true. Proof. reflexivity. Qed.
 Example ex_iface_bad : validate_interface [111;114;103;46;48] = false. Proof. reflexivity. Qed.
 Example ex_path_ok : validate_path [47;97;47;98;95] = true. Proof. reflexivity. Qed.
 Example ex_path_bad : validate_path [47;97;47] = false. Proof. reflexivity. Qed.
 Example ex_unique_ok : spec_unique [58;49;46;52;50] = true. Proof. reflexivity. Qed.
+Example ex_utf8_ok : validate_utf8 [226; 130; 172; 65] = Some true. Proof. reflexivity. Qed.     (* U+20AC 'A' *)
+Example ex_utf8_overlong : validate_utf8 [192; 175] = Some false. Proof. reflexivity. Qed.
+Example ex_utf8_surrogate : validate_utf8 [237; 160; 128] = Some false. Proof. reflexivity. Qed.
